@@ -418,7 +418,7 @@ Definition unstake_one (s : state) (a : bytes) : option state :=
   match get_val s a with
   | None => Some s
   | Some v =>
-    if negb (v_status v =? 1)%N || (v_tokens v <? p_min_stake (pp s)) then Some s
+    if negb (v_status v =? 1)%N then Some s            (* ValidateValidatorFinishUnstaking, as repaired (F22) *)
     else finish_unstaking s a v
   end.
 Definition unstake_mature (s : state) : option state :=
